@@ -182,6 +182,19 @@ class UnionModels:
     ms: list[Union[Amount, Label]] = field(default_factory=list, metadata={"type": "Element"})
 
 
+@dataclass(kw_only=True)
+class ReqNil:
+    """required nillable fields WITHOUT a default (what the generator emits for a required nillable element):
+    an explicit None has to reach the constructor."""
+
+    class Meta:
+        namespace = NS_B
+
+    req: Optional[str] = field(metadata={"type": "Element", "nillable": True, "required": True})
+    reqi: Optional[int] = field(metadata={"type": "Element", "nillable": True, "required": True})
+    opt: Optional[int] = field(default=None, metadata={"type": "Element"})
+
+
 @dataclass
 class UnionEl:
     """elements typed with a union of a model and primitives (UnionNode: candidates are replayed and scored)."""
@@ -225,8 +238,8 @@ class Order:
     any_attr: Optional[object] = field(default=None, metadata={"type": "Element", "name": "anyType"})
 
 
-ROOTS = [Leaf, Item, Holder, QNames, Prims, Seq, Compound, UnionEl, UnionModels, Wild, Mixed, Order]
-ALL = [Leaf, Item, Base, Derived, Holder, QNames, Prims, Seq, Compound, Amount, Label, UnionEl, UnionModels, Wild, Mixed, Order]
+ROOTS = [Leaf, Item, Holder, QNames, Prims, Seq, Compound, ReqNil, UnionEl, UnionModels, Wild, Mixed, Order]
+ALL = [Leaf, Item, Base, Derived, Holder, QNames, Prims, Seq, Compound, ReqNil, Amount, Label, UnionEl, UnionModels, Wild, Mixed, Order]
 
 HOSTILE_MAPS: list[dict | None] = [
     None,
@@ -390,12 +403,13 @@ class Gen:
                 continue
             tp = hints[f.name]
             meta = dict(f.metadata)
-            optional = type(None) in typing.get_args(tp) or f.default is not dataclasses.MISSING or f.default_factory is not dataclasses.MISSING
+            has_default = f.default is not dataclasses.MISSING or f.default_factory is not dataclasses.MISSING
+            optional = type(None) in typing.get_args(tp) or has_default
             meta["_optional"] = optional
-            if optional and self.r.random() < 0.25:
+            if has_default and self.r.random() < 0.25:
                 continue
             v = self.r.choice(meta["xv_values"]) if "xv_values" in meta else self.value(tp, meta, depth)
-            if v is None and not (type(None) in typing.get_args(tp) or tp is object):
+            if v is None and not (type(None) in typing.get_args(tp) or tp is object) and has_default:
                 continue
             kw[f.name] = v
         return cls(**kw)
